@@ -91,6 +91,9 @@ var goForms = []string{
 	"func f%d() string {\n\treturn %s\n}\n",
 }
 
+// LitText is the value of the literal.
+func LitText(l *Literal, defs []*Def) string { return litText(l, defs) }
+
 func litText(l *Literal, defs []*Def) string {
 	var sb strings.Builder
 	sb.WriteString(l.Lead + "# @genqlient\n")
